@@ -463,6 +463,144 @@ def h_server_hello(c, n_ext, record_version):
 h_server_hello.must_cover = ["reached"]
 
 
+@harness("C01", "hello.server_hello_unbounded", functions=[SE + ".handle_tls_server_hello"], cases=[(rv,) for rv in ("0300", "0301", "0302", "0303")], timeout=20000)
+def h_server_hello_unbounded(c, record_version):
+    """UNBOUNDED in the number of extensions: a ServerHello whose extension block holds ANY number of extensions of any type and length
+    (ghost: start(q) = offset of extension q in the block, start(q+1) = start(q) + 4 + its 16-bit length, the extensions tile the block;
+    typ(q), data(q) read off the block).  The map the loop builds is described by ghost structure: after i extensions it is
+    fold(i) = 'type k -> data of the LAST extension of type k among the first i' (last(i, k), definitional: last(i+1, k) = i if typ(i) = k
+    else last(i, k)).  Loop contract: at the head of iteration i the walk stands at start(i) and the map is fold(i); each iteration stores
+    exactly (typ(i), data(i)).  Hence for any number of extensions: the session's extension map is fold(n); TLS 1.3 is selected iff the
+    last supported_versions extension says 0x0304 (and record / hello versions allow it); keys are generated from the parsed values."""
+    if c.native:
+        return
+    from pyvc.core import Unsupported
+    from pyvc.interp import Builtin
+    nx = c.int("n_extensions", 0, None)
+    X = c.bytes("extension_block", min_len=0, max_len=65535)
+    ver, rnd = c.bytes("hello_version", length=2), c.bytes("random", length=32)
+    sid = c.bytes("session_id", max_len=32)
+    suite, comp = c.bytes("cipher_suite", length=2), c.int("compression", 0, 255)
+    body = cat(ver, rnd, c.bytes_of([len_(sid)]), sid, suite, c.bytes_of([comp]), c.encode_be("exts_len", len_(X), 2), X)
+    msg = cat(c.bytes_of([2]), c.encode_be("hs_len", len_(body), 3), body)
+    start, last = c.uf("extension_offset"), c.uf("last_extension_of_type", nargs=2)
+    c.assume(band(start(0) == 0, start(nx) == len_(X)))
+
+    def u16(p):
+        return X[p] * 256 + X[p + 1]
+
+    def typ(q):
+        return u16(start(q))
+
+    def elen(q):
+        return u16(start(q) + 2)
+
+    def data(q):
+        return X[start(q) + 4:start(q) + 4 + elen(q)]
+
+    def ext_def(q, k=None):
+        inside = band(0 <= q, q < nx)
+        c.assume(implies(inside, band(start(q) >= 0, start(q) + 4 + elen(q) <= len_(X), start(q + 1) == start(q) + 4 + elen(q))))
+        if k is not None:
+            c.assume(band(last(0, k) == -1, last(q, k) >= -1, last(q, k) < smax0(q), implies(inside, last(q + 1, k) == ite(eq(typ(q), k), q, last(q, k)))))
+
+    def smax0(q):
+        return ite(q > 0, q, 0) if not isinstance(q, int) else max(q, 0)
+
+    class ExtMap:
+        """fold(i): the map after the first i extensions"""
+
+        def __init__(self):
+            self.i = 0
+            self.bad = False
+
+        def pyvc_setitem(self, I, k, v):
+            i = self.i
+            ext_def(i)
+            ok = c.prove(band(len_(k) == 2, k[0] * 256 + k[1] == typ(i), eq(v, data(i))))
+            c.ensure("extension_map.iteration_stores_exactly_this_extension", ok)
+            self.i = i + 1
+
+        def lookup(self, k, default=None):
+            from pyvc.core import to_bytes_val
+            kb = to_bytes_val(k)
+            if not c.prove(len_(kb) == 2):
+                return default
+            kv = kb.at(0) * 256 + kb.at(1)
+            ext_def(self.i, kv)
+            j = last(self.i, kv)
+            if c.truth_fork(j >= 0):
+                ext_def(j)
+                c.assume(eq(typ(j), kv))            # definition of last: the extension it names has the type
+                return data(j)
+            return default
+
+        def pyvc_getattr(self, I, name):
+            if name == "get":
+                return Builtin("dict.get", lambda I, k, d=None: self.lookup(k, d))
+            raise Unsupported("method %s on the extension map" % name)
+
+    EM = ExtMap()
+    gh = {"k": 0}
+    rec = c.obj("tlexport.tlsrecord.TlsRecord", binary=msg, record_type=0x16, record_version=const(bytes.fromhex(record_version)),
+                record_length=const(b"\x00\x00"), raw=cat(const(b"\x16"), const(bytes.fromhex(record_version)), const(b"\x00\x00"), msg), metadata=[], isserver=True)
+    gen = []
+    c.summary_override(SE + ".generate_keys", lambda ctx, slf, *a: gen.append(a))
+    cr = c.bytes("client_random", length=32)
+    from contracts.common import full_session
+    s = full_session(c, client_hello_seen=True, can_decrypt=False, client_random=cr, tls_version=None)
+
+    def ghost(phase, e):
+        if phase == "havoc":
+            gh["k"] = c.fresh_int("extension_index", 0, None)
+            ext_def(gh["k"])
+            EM.i = gh["k"]
+        elif phase == "step":
+            gh["k"] = gh["k"] + 1
+            c.cover("iteration")
+
+    def inv(e):
+        k = gh["k"]
+        m = e.self.attrs.get("extensions")
+        if m is EM:
+            is_fold = eq(EM.i, k)
+        else:
+            is_fold = isinstance(m, dict) and len(m) == 0 and isinstance(k, int) and k == 0       # the empty map the code starts from is fold(0)
+        return band(0 <= k, k <= nx, eq(e.extensions_index, start(k)), eq(e.extensions_length, len_(X)), eq(e.extensions_bin, X), is_fold)
+    c.loop(SE + ".handle_tls_server_hello", "while extensions_index < extensions_length", invariant=inv, decreases=lambda e: nx - gh["k"], ghost_step=ghost,
+           havoc={"self.extensions": lambda cur: EM, "extension_length": lambda cur: None})
+    ext_def(0)
+    out = c.method(s, "handle_tls_server_hello", rec)
+    c.ensure("no_raise", out.exc is None, kind="raises")
+    if out.exc is not None:
+        return
+    g = lambda n: c.get(s, n)
+    c.ensure("server_random", eq(g("server_random"), rnd))
+    c.ensure("cipher_suite", eq(g("ciphersuite"), suite))
+    c.ensure("compression", g("compression_method") == comp)
+    c.ensure("walk_covers_every_extension", c.prove(eq(gh["k"], nx)))
+    c.ensure("extension_map_is_the_fold_over_all_extensions", g("extensions") is EM and c.prove(eq(EM.i, nx)))
+    sv = EM.lookup(const(b"\x00\x2b"))
+    is13 = sv is not None and c.truth_fork(eq(sv, const(b"\x03\x04")))
+    TVq = "tlexport.tlsversion.TlsVersion"
+    if record_version == "0300":
+        wantv = "SSL30"
+    elif record_version == "0302":
+        wantv = "TLS11"
+    else:
+        wantv = "TLS10" if c.truth_fork(eq(ver, const(b"\x03\x01"))) else (("TLS13" if is13 else "TLS12") if c.truth_fork(eq(ver, const(b"\x03\x03"))) else None)
+    if wantv is None:
+        c.ensure("unknown_version.no_keys", len(gen) == 0 and g("can_decrypt") is False)
+        return
+    c.ensure("version", g("tls_version") is c.enum(TVq, wantv))
+    c.ensure("keys_generated_from_the_parsed_values", len(gen) == 1 and gen[0][0] is g("tls_version") and gen[0][1] is g("ciphersuite")
+             and gen[0][2] is cr and gen[0][3] is g("server_random"))
+    c.cover("reached")
+
+
+h_server_hello_unbounded.must_cover = ["reached", "iteration"]
+
+
 @harness("C01", "state.finished", functions=[SE + ".handle_handshake_finished"], cases=[(m,) for m in (False, True)])
 def h_finished(c, meta):
     """an encrypted handshake record advances a cipher state only if ITS sender has sent ChangeCipherSpec (and the
